@@ -162,3 +162,17 @@ func (p *PFCPIface) VerifPools() map[string]int {
 
 	return out
 }
+
+// VerifFTEIDSetOffset places the cursor of a stand-alone F-TEID generator.
+func VerifFTEIDSetOffset(g *FTEIDGenerator, offset uint32) {
+	g.lock.Lock()
+	defer g.lock.Unlock()
+	g.offset = offset
+}
+
+// VerifFTEIDMark marks id as allocated without moving the cursor (to build dense states cheaply).
+func VerifFTEIDMark(g *FTEIDGenerator, id uint32) {
+	g.lock.Lock()
+	defer g.lock.Unlock()
+	g.usedMap[id-minValue] = true
+}
